@@ -270,7 +270,7 @@ Section Ops.
     | EqDict l => Some (S2.EqDict l)
     | Len => Some S2.Len
     | Contains k => Some (S2.Contains k)
-    | EqSelf | Copy => None
+    | EqSelf | Copy | Snapshot _ => None
     end.
 
   Definition conv_out (o : op) (r : res S2.outv) : rv :=
